@@ -310,6 +310,13 @@ func (w *world) causeBetween(from, to, maxKind int) bool {
 
 // cfgInterval: the k-th interval (k = failures since the last success) of the configured backoff.
 func (w *world) cfgInterval(k int) int64 {
+	if w.cfgKind == 3 {
+		d := 100 * time.Millisecond
+		for i := 0; i < k; i++ {
+			d = time.Duration(float64(d) * 0.5)
+		}
+		return int64(d)
+	}
 	if w.cfgKind == 2 {
 		d := int64(100 * time.Millisecond)
 		for i := 0; i < k && d < int64(200*time.Millisecond); i++ {
@@ -652,6 +659,10 @@ func newWorld(c *core.Ctx, single bool) *world {
 				w.bo.stopAfter = c.IntRange(1, 2)
 			}
 			opts = append(opts, routine.WithBackoff(w.bo))
+		} else if single && c.S.PlanP(250) {
+			// an exponential configuration with a multiplier below one (legal: the intervals shrink): 100, 50, 25, … ms
+			w.cfgKind = 3
+			opts = append(opts, routine.WithRetry(&ubackoff.Backoff{BackoffKind: ubackoff.BackoffKind_BackoffKind_EXPONENTIAL, Exponential: &ubackoff.Exponential{InitialInterval: 100, Multiplier: 0.5, MaxInterval: 200}}))
 		} else if single && c.S.PlanP(500) {
 			// the library's exponential backoff from a configuration: 100, 200, 200, … ms, back to 100 after a success
 			w.cfgKind = 2
